@@ -37,6 +37,20 @@ def _node_job(node, script, job, flags=()):
     return json.loads(p.stdout)
 
 
+def _lost_this(diff):
+    """the first differing event is the same call with the same arguments, `this` undefined in the output only"""
+    try:
+        a, b = diff['input']['at'], diff['output']['at']
+    except Exception:
+        return False
+    import re as _re
+    for x, y in zip(a, b):
+        if x != y:
+            return (x.startswith('call:') and ' this=undefined ' in y and ' this=undefined ' not in x
+                    and _re.sub(r' this=\S+ ', ' this=? ', x) == _re.sub(r' this=\S+ ', ' this=? ', y))
+    return False
+
+
 def node_diffexec(node, prop, seed, tier, known, ev, scale=1):
     n = (400 if tier == 'quick' else 8000) * scale
     reqs = gen.exec_requests(seed ^ 0xE8EC, n)
@@ -70,6 +84,10 @@ def node_diffexec(node, prop, seed, tier, known, ev, scale=1):
                     cls = 'spread-of-a-non-iterable-literal-throws-after-later-arguments-were-evaluated'
                 elif not plus_on and ' + ' in q['src']:
                     cls = 'sum-left-in-place-is-evaluated-after-hoisted-operands-when-plus-is-disabled'
+                elif _lost_this(r['diff']) and _re.search(r'\?\.(\w+|\[[^\]]*\])(\.\w+)*\)*\?\.\(', q['src']):
+                    # `a?.b?.(x)` / `a?.b.c?.(x)` inside a lowered chain: the callee is a link of the chain, it is
+                    # hoisted whole into a temporary and called without its receiver
+                    cls = 'optional-call-on-a-chain-member-loses-this'
                 kf = [x for x in known if x['cls'] == cls and x['property'] in (prop, 'C01')]
                 (known_hits.setdefault((prop, cls), []).append((q, r['diff'])) if kf else
                  violations.append(('%s:%s' % (prop, cls), q, rec, r['diff'])))
@@ -129,7 +147,10 @@ def node_wrapper(node, prop, seed, tier, known, ev, results):
         file0 = grp[0][0]['file']
         for req, rec in grp:
             table[native_key(req['src'], file0)] = {"result": {"content": rec['content'], "metrics": rec['metrics'], "literalsResult": rec.get('literals')}}
-        hist.append({"id": len(hist), "steps": [{"file": file0, "code": req['src'], "lookups": []} for req, rec in grp]})
+        # every fourth history: storing the rewritten file's source map fails (what the package's own spec injects);
+        # the call still answers, and a result reported as modified still carries the rewritten text
+        hist.append({"id": len(hist), "steps": [dict({"file": file0, "code": req['src'], "lookups": []}, **({"fault": "map-cache-throws"} if len(hist) % 4 == 3 else {}))
+                                                for req, rec in grp]})
         groups.append(grp)
         i += n
     violations = []
@@ -262,6 +283,10 @@ def run_history(prop, spec, seed, tier, known, ev):
         for i in range(ln):
             hist.append({"id": "h%d-%d" % (h, i), "cfg": g.choice(cfgs), "src": g.choice(mapped if heavy and not g.chance(1, 4) else pool),
                          "file": g.choice(["a.js", "b.js"] if heavy else ["a.js", "b.js", "dir/c.js"]), "ast": False, "fresh": g.chance(1, 8)})
+        if h == 0:
+            # a generated file with many reportable literals (more than any plausible cap): the report is the same set every time
+            many = "var table = [" + ", ".join("'reportable literal number %04d'" % k for k in range(900)) + "];\nfunction f(a){ return a + table[0]; }"
+            hist = [{"id": "h0-%d" % i, "cfg": cfgs[0], "src": many if i != 2 else pool[0], "file": "gen/table.js", "ast": False, "fresh": i == 3} for i in range(4)]
         recs = vlib.run_harness(hist)
         # every call alone, each in its own process
         alone = []
@@ -416,7 +441,7 @@ def run_maps(prop, spec, seed, tier, known, ev):
     for i in range(n // 2):
         g = r.fork()
         reqs.append({"id": "lay-%d" % i, "cfg": dict(vlib.DEFAULT_CFG, comments=g.chance(1, 2)), "src": layout_program(g),
-                     "file": g.choice(["test.js", "dir/sub/file.js", "/abs/é/mod.js"]), "tags": ['layout']})
+                     "file": g.choice(["test.js", "dir/sub/file.js", "/abs/é/mod.js", "reports/q1\\2024.js"]), "tags": ['layout']})
     reqs += gen.gen_requests(r.next(), n - n // 2, cfg_mode='mixed')
     for k, q in enumerate(reqs):
         q.update({"maps": True, "text_ast": True})
@@ -485,8 +510,21 @@ def gen_orig_map(g, src):
         # names outside ASCII (the map JSON carries them as UTF-8)
         sources = [g.choice(["m\u00f3dulo%d.ts", "\u65e5\u672c%d.ts", "dir \u00e9/x%d.ts", "\U0001F600%d.ts"]) % k for k in range(nsrc)]
     names = ["n%d" % k for k in range(g.below(4))]
+    # a bundle of files generated from one template: neighbouring pieces come from the same line and column of
+    # different original files (and carry different names)
+    twins = g.chance(1, 4)
+    if twins:
+        nsrc = max(nsrc, 2)
+        sources = (sources + ["orig_twin.ts"])[:max(len(sources), 2)] if len(sources) < 2 else sources
+        names = names or ["first", "second"]
     for ln, text in enumerate(lines):
         if g.chance(1, 5):
+            continue
+        if twins and g.chance(1, 2):
+            L, C = g.below(50), g.below(80)
+            cols = sorted(set(g.below(max(1, len(text))) for _ in range(2 + g.below(5))))
+            for j, c in enumerate(cols):
+                toks.append((ln, c, j % nsrc, L, C, (j % len(names)) if g.chance(1, 2) else None))
             continue
         cols = sorted(set(g.below(max(1, len(text))) for _ in range(1 + g.below(6))))
         if g.chance(2, 3) and 0 not in cols:
@@ -768,7 +806,13 @@ def run_js(prop, spec, seed, tier, known, ev):
             calls_needed.append((code, file))
         hists.append((i, steps))
         job["histories"].append({"id": i, "steps": steps})
-    table, byk = native_table(calls_needed, cfg)
+    # the native results come from rewriters of several configurations (the package caches the map of every
+    # modified result, whatever the telemetry verbosity says about counting)
+    quiet = dict(cfg, telemetryVerbosity="OFF")
+    table, byk = native_table(calls_needed[0::2], cfg)
+    t2, b2 = native_table(calls_needed[1::2], quiet)
+    table.update(t2)
+    byk.update(b2)
     job["native"] = table
     # (d) many distinct files
     gcap = r.fork()
